@@ -502,6 +502,11 @@ def main(argv=None):
     # -- violations ----------------------------------------------------------
     violations = [d for d in ordered if d["violation"]]
     known_lines = collections.OrderedDict()
+    # every listed (unrepaired) finding of this property gets its line, hit in
+    # this batch or not
+    for k in known:
+        if k.get("property") == prop and k.get("status") == "known":
+            known_lines[k.get("what")] = 0
     for d in ordered:
         for kh in d["known_hits"] or []:
             known_lines.setdefault(kh, 0)
